@@ -36,7 +36,8 @@ type stmt struct {
 	KVs   []string `json:"kvs,omitempty"`   // update: k1,v1,k2,v2... in call order; the pair (resetKey, "") is a call of Reset()
 	D     [][]byte `json:"-"`               // op: the delta the model is given
 	Ops   []string `json:"-"`               // update: the context methods as the model is given them (CApp d | CReset)
-	Via   int      `json:"via,omitempty"`   // copy flavour: 0 Level(Lvl) 1 Sample(nil) 2 Hook()
+	Via   int      `json:"via,omitempty"`   // copy flavour: 0 Level(Lvl) 1 Sample(sampler Smp) 2 Hook()
+	Smp   int      `json:"smp,omitempty"`   // copy via 1: 0 Sample(nil); k > 0 Sample(s_k), the same k being the same sampler object
 	Lvl   int      `json:"-"`               // copy via 0: the level set
 	Level string   `json:"level,omitempty"` // the same, for the replay file
 	Muted bool     `json:"muted,omitempty"` // emit: the logger's path level is Disabled, nothing may come out (set by execute)
@@ -124,7 +125,27 @@ func lcopy(x, lvl int) stmt {
 	return stmt{K: "copy", X: x, Via: 0, Lvl: lvl, Level: fmt.Sprintf("Level(%d)", lvl)}
 }
 
+// recSampler: a sampler that records who was asked and answers what the harness decided for the event at hand
+type recSampler struct {
+	id  int
+	env *samplerEnv
+}
+
+type samplerEnv struct {
+	admit bool  // the answer every sampler gives for the event being sent
+	asked []int // ids of the samplers consulted since the last reset
+}
+
+func (s *recSampler) Sample(zerolog.Level) bool {
+	s.env.asked = append(s.env.asked, s.id)
+	return s.env.admit
+}
+
+// a Sample copy (k = 0: Sample(nil))
+func scopy(x, k int) stmt { return stmt{K: "copy", X: x, Via: 1, Smp: k} }
+
 type cell struct {
+	smp   int // the sampler of this variable's derivation path (0: none)
 	isCtx bool
 	ctx   zerolog.Context
 	log   *zerolog.Logger
@@ -157,12 +178,31 @@ func memberRaw(pure []byte, k, raw string) []byte {
 
 // execute runs the program on the real code; returns observations, whether it is in the property's language,
 // and whether it reuses a Context value (K1 shape)
-func execute(p []stmt) (obs [][]byte, want [][]byte, inLang bool, reuse bool, lvlBad string, openBad string) {
+func execute(p []stmt) (obs [][]byte, want [][]byte, inLang bool, reuse bool, lvlBad string, openBad string, smpBad string) {
 	zerolog.SetGlobalLevel(zerolog.Level(-128))
 	defer zerolog.SetGlobalLevel(zerolog.DebugLevel)
 	w := &lastWriter{}
 	var cells []cell
 	inLang = true
+	env := &samplerEnv{admit: true}
+	samplers := map[int]*recSampler{}
+	anySampler := false
+	for _, s := range p {
+		anySampler = anySampler || (s.K == "copy" && s.Via == 1 && s.Smp != 0)
+	}
+	// the samplers an event consulted: only the sampler of the logger's own derivation path may be asked
+	askedBad := func(i int, c *cell, what string) {
+		for _, id := range env.asked {
+			if id != c.smp && smpBad == "" {
+				own := "has no sampler (the nearest Sample() on its path was given nil, or there is none)"
+				if c.smp != 0 {
+					own = fmt.Sprintf("has sampler s%d", c.smp)
+				}
+				smpBad = fmt.Sprintf("statement %d: %s of a logger whose derivation path %s consulted sampler s%d", i, what, own, id)
+			}
+		}
+		env.asked = env.asked[:0]
+	}
 	for i := range p {
 		s := &p[i]
 		get := func() *cell { return &cells[s.X] }
@@ -179,7 +219,7 @@ func execute(p []stmt) (obs [][]byte, want [][]byte, inLang bool, reuse bool, lv
 			if len(pure) == 0 {
 				pure = []byte("{")
 			}
-			cells = append(cells, cell{isCtx: true, ctx: c.log.With(), pure: pure, live: true, own: true, lvl: c.lvl})
+			cells = append(cells, cell{isCtx: true, ctx: c.log.With(), pure: pure, live: true, own: true, lvl: c.lvl, smp: c.smp})
 		case "op":
 			c := get()
 			if !c.live {
@@ -191,7 +231,7 @@ func execute(p []stmt) (obs [][]byte, want [][]byte, inLang bool, reuse bool, lv
 			mk, mraw := methodValue(s.Meth, s.Key, s.Val)
 			d := memberRaw(c.pure, mk, mraw)
 			s.D = [][]byte{d}
-			nc := cell{isCtx: true, ctx: applyMethod(c.ctx, s.Meth, s.Key, s.Val), pure: append(append([]byte{}, c.pure...), d...), live: true, own: true, lvl: c.lvl}
+			nc := cell{isCtx: true, ctx: applyMethod(c.ctx, s.Meth, s.Key, s.Val), pure: append(append([]byte{}, c.pure...), d...), live: true, own: true, lvl: c.lvl, smp: c.smp}
 			c.live = false
 			cells = append(cells, nc)
 		case "reset":
@@ -202,7 +242,7 @@ func execute(p []stmt) (obs [][]byte, want [][]byte, inLang bool, reuse bool, lv
 			if !c.live || !c.own {
 				inLang = false
 			}
-			nc := cell{isCtx: true, ctx: c.ctx.Reset(), pure: []byte("{"), live: true, own: true, lvl: c.lvl}
+			nc := cell{isCtx: true, ctx: c.ctx.Reset(), pure: []byte("{"), live: true, own: true, lvl: c.lvl, smp: c.smp}
 			c.live = false
 			cells = append(cells, nc)
 		case "logger":
@@ -216,25 +256,34 @@ func execute(p []stmt) (obs [][]byte, want [][]byte, inLang bool, reuse bool, lv
 			l := c.ctx.Logger()
 			pure := c.pure
 			c.live = false
-			cells = append(cells, cell{log: &l, pure: pure, live: true, own: true, lvl: c.lvl})
+			cells = append(cells, cell{log: &l, pure: pure, live: true, own: true, lvl: c.lvl, smp: c.smp})
 		case "copy":
 			c := get()
 			var l zerolog.Logger
 			lvl := c.lvl
+			smp := c.smp
 			switch s.Via {
 			case 0:
 				l = c.log.Level(zerolog.Level(s.Lvl))
 				lvl = s.Lvl
 			case 1:
-				l = c.log.Sample(nil)
+				smp = s.Smp
+				if s.Smp == 0 {
+					l = c.log.Sample(nil)
+				} else {
+					if samplers[s.Smp] == nil {
+						samplers[s.Smp] = &recSampler{id: s.Smp, env: env}
+					}
+					l = c.log.Sample(samplers[s.Smp])
+				}
 			default:
 				l = c.log.Hook()
 			}
-			cells = append(cells, cell{log: &l, pure: c.pure, live: true, nilc: c.nilc, lvl: lvl})
+			cells = append(cells, cell{log: &l, pure: c.pure, live: true, nilc: c.nilc, lvl: lvl, smp: smp})
 		case "output":
 			c := get()
 			l := c.log.Output(w)
-			cells = append(cells, cell{log: &l, pure: c.pure, live: true, own: !c.nilc, nilc: c.nilc, lvl: c.lvl})
+			cells = append(cells, cell{log: &l, pure: c.pure, live: true, own: !c.nilc, nilc: c.nilc, lvl: c.lvl, smp: c.smp})
 		case "update":
 			c := get()
 			if !c.own {
@@ -268,8 +317,10 @@ func execute(p []stmt) (obs [][]byte, want [][]byte, inLang bool, reuse bool, lv
 		case "emit":
 			c := get()
 			w.last = nil
+			env.admit, env.asked = true, env.asked[:0]
 			extra := sendOpen(c.log, s.Open)
 			line := w.last
+			askedBad(i, c, "the level-less event")
 			garbled := false
 			o := bytes.TrimSuffix(line, []byte("}\n"))
 			if extra != "" && line != nil {
@@ -303,8 +354,24 @@ func execute(p []stmt) (obs [][]byte, want [][]byte, inLang bool, reuse bool, lv
 			// the level of the derivation path: an event of level lv comes out iff lv >= that level, and
 			// carries the same context as the level-less event above
 			for lv := int(zerolog.TraceLevel); lv <= int(zerolog.PanicLevel) && lvlBad == "" && !garbled; lv++ {
+				if anySampler && lv >= c.lvl {
+					// every sampler of the program says no: the event comes out iff the logger's path has no sampler
+					w.last = nil
+					env.admit = false
+					c.log.WithLevel(zerolog.Level(lv)).Send()
+					env.admit = true
+					askedBad(i, c, fmt.Sprintf("a level-%d event", lv))
+					switch {
+					case smpBad != "":
+					case c.smp != 0 && w.last != nil:
+						smpBad = fmt.Sprintf("statement %d: a logger whose derivation path has sampler s%d emitted the level-%d event %q although that sampler rejects it", i, c.smp, lv, w.last)
+					case c.smp == 0 && w.last == nil:
+						smpBad = fmt.Sprintf("statement %d: a logger whose derivation path has no sampler (the nearest Sample() on its path was given nil, or there is none) dropped a level-%d event that the samplers of other loggers reject", i, lv)
+					}
+				}
 				w.last = nil
 				c.log.WithLevel(zerolog.Level(lv)).Send()
+				askedBad(i, c, fmt.Sprintf("a level-%d event", lv))
 				switch {
 				case lv < c.lvl && w.last != nil:
 					lvlBad = fmt.Sprintf("statement %d: a logger whose path level is %d emitted the level-%d event %q", i, c.lvl, lv, w.last)
@@ -446,6 +513,11 @@ func genProg(r *Rng, nonlinear bool, big bool, rich bool) []stmt {
 				}
 				st = lcopy(x, lvl)
 			}
+			if st.Via == 1 {
+				// Sample(nil), one of two samplers shared over the tree, or a fresh one (chosen without drawing
+				// from r: the programs are otherwise those of the sampler-less generator)
+				st.Smp = []int{0, 0, 1, 2, 1, 10 + i}[(n+3*i+5*x)%6]
+			}
 			p = append(p, st)
 			vars = append(vars, vinfo{nilc: vars[x].nilc, lvl: lvl})
 		case c == 14:
@@ -522,7 +594,7 @@ func (h probeHook) Run(e *zerolog.Event, l zerolog.Level, m string) {
 }
 
 func run(c *Ctx) {
-	c.Res.Rule = "derivation programs in SSA form over With / context ops / Logger / Level|Sample|Hook copies / Output / UpdateContext / emit, random trees (6-28 statements, branching, events from every node in random order); 3 streams: inside the property's language, with large values (contexts beyond the 500-byte capacity), and non-linear (a Context value reused: outside the language, K1 shape); context methods are appends or Reset() (on a Context value or inside the UpdateContext function); Level copies set wide / trace..panic / NoLevel / Disabled, every emit also sends one event per level trace..panic (emitted iff at or above the path's level, same context), a muted logger is read through a re-opening Level copy; directed sweeps: Reset() with live relatives (0/1/3 parent fields x Level|Sample|Hook|With|Output relatives x 4 update shapes x UpdateContext|Context value) and muted paths (Level(Disabled|NoLevel|warn|wide) before With() x 0/2 fields x With|Output owner x 3 update shapes x re-opening level); a stream of rich programs (fields added through Array(user marshaler|Arr()) / Dict / Object / EmbedObject / Fields / Interface, events given 2-3 arrays/dicts that were open at once and filled alternately); pool sweeps: Go-context leavers (10 ways an event given a context ends: Msg/Send, With().Ctx, Dict().Ctx(c) into Event.Dict|Array.Dict|Context.Dict|nil event|another dict, marshalers calling e.Ctx) x 1-3 open at once x 25 takers (marshalers/hooks reached through helper or logger events of a context-less logger) and objects-handed-out-twice (16 derivation/event actions using pooled arrays and dicts x 7 ways a sibling keeps arrays/dicts/events open at once); plus GetCtx probes through pooled helper events, Output keeping the Go context, and a concurrent run under the race detector. Non-trivial = at least 3 emits from at least 2 different arrays' worth of branches; distinct by program text"
+	c.Res.Rule = "derivation programs in SSA form over With / context ops / Logger / Level|Sample|Hook copies / Output / UpdateContext / emit, random trees (6-28 statements, branching, events from every node in random order); 3 streams: inside the property's language, with large values (contexts beyond the 500-byte capacity), and non-linear (a Context value reused: outside the language, K1 shape); context methods are appends or Reset() (on a Context value or inside the UpdateContext function); Level copies set wide / trace..panic / NoLevel / Disabled, every emit also sends one event per level trace..panic (emitted iff at or above the path's level, same context), a muted logger is read through a re-opening Level copy; directed sweeps: Reset() with live relatives (0/1/3 parent fields x Level|Sample|Hook|With|Output relatives x 4 update shapes x UpdateContext|Context value) and muted paths (Level(Disabled|NoLevel|warn|wide) before With() x 0/2 fields x With|Output owner x 3 update shapes x re-opening level); the sampler of the path (Sample copies are given nil, one of two samplers shared over the tree or a fresh one; recording samplers that answer what the harness decides per event: a logger must consult the sampler of its own path only, emit nothing that sampler rejects and everything when its path has none; directed: 3 positions x none|Sample(nil)|Sample(fresh)|Sample(shared) x 6 kinds of derivation step in between, Sample(nil)/Sample(shared) siblings at every position); a stream of rich programs (fields added through Array(user marshaler|Arr()) / Dict / Object / EmbedObject / Fields / Interface, events given 2-3 arrays/dicts that were open at once and filled alternately); pool sweeps: Go-context leavers (10 ways an event given a context ends: Msg/Send, With().Ctx, Dict().Ctx(c) into Event.Dict|Array.Dict|Context.Dict|nil event|another dict, marshalers calling e.Ctx) x 1-3 open at once x 25 takers (marshalers/hooks reached through helper or logger events of a context-less logger) and objects-handed-out-twice (derivation/event actions using pooled arrays and dicts, and every way an event ends its life unwritten - rejected by one / two / three hooks of its derivation path, discarded once or twice by the caller, both, each finished with Msg|Send|Msgf|MsgFunc, recovered Panic(), rejected by a sampler, a hook logging elsewhere before rejecting - x 7 ways a sibling keeps arrays/dicts/events open at once); plus GetCtx probes through pooled helper events, Output keeping the Go context, and a concurrent run under the race detector. Non-trivial = at least 3 emits from at least 2 different arrays' worth of branches; distinct by program text"
 	c.OpenShards("From Verif Require Import Base.Prelude Misc.HlogHeap Heap.LoggerHeap Harness.C05H.", "list hstmt * list (list N)", "mismatches c05_run c05_eqb", 400)
 	n := 1500
 	if c.Thorough() {
@@ -530,7 +602,10 @@ func run(c *Ctx) {
 	}
 	k1seen := false
 	emitCase := func(p []stmt, modelToo bool) {
-		obs, want, inLang, reuse, lvlBad, openBad := execute(p)
+		obs, want, inLang, reuse, lvlBad, openBad, smpBad := execute(p)
+		if smpBad != "" {
+			c.Violate(Violation{Key: "sampler-of-path-wrong", Monitor: "path-sampler", Desc: smpBad + " (the sampler of a logger is the argument of the nearest Sample() on its derivation path, nil meaning none; every sampler here answers what the harness decided for the event at hand and records that it was asked)", Case: p})
+		}
 		if openBad != "" {
 			c.Violate(Violation{Key: "pooled-object-shared", Monitor: "open-at-once", Desc: openBad + " (the arrays/dicts an event is given were handed out twice by the pool, or carry something left by an earlier derivation step)", Case: p})
 		}
@@ -545,6 +620,8 @@ func run(c *Ctx) {
 				c.Hist("emit", fmt.Sprintf("read, open-at-once flavour %d", st.Open))
 			case st.K == "emit" && st.Open != 0:
 				c.Hist("emit", "muted, open-at-once")
+			case st.K == "copy" && st.Via == 1:
+				c.Hist("sample_copy", map[bool]string{true: "Sample(nil)", false: "Sample(s)"}[st.Smp == 0])
 			case st.K == "reset":
 				c.Hist("reset", "Context.Reset")
 			case st.K == "update" && strings.Contains(strings.Join(st.KVs, "\x00"), resetKey):
@@ -588,6 +665,72 @@ func run(c *Ctx) {
 	// corpus: K1 witness as in DESIGN/KNOWN_FINDINGS
 	emitCase([]stmt{{K: "root"}, {K: "with", X: 0}, {K: "op", X: 1, Key: "base", Val: "1"}, {K: "op", X: 2, Key: "br", Val: "AAAA"}, {K: "logger", X: 3},
 		{K: "op", X: 2, Key: "br", Val: "BBBB"}, {K: "logger", X: 5}, {K: "emit", X: 4}, {K: "emit", X: 6}}, true)
+	// ---- the sampler of the derivation path (directed, complete over the listed shapes) ----
+	// three positions down one path, each with no Sample() call / Sample(nil) / Sample(fresh sampler) /
+	// Sample(the one sampler shared over the tree); between the positions one derivation step of a given kind
+	// (none / With()+field / Level / Output / Hook() / UpdateContext on a With() owner); at every position two
+	// siblings (Sample(nil) and Sample(shared) of the node) are taken as well.  Every node is read, in creation
+	// order and in reverse: it must consult the sampler of its own path only, emit what that sampler admits
+	// and everything when its path has none.
+	{
+		nsweep := 0
+		for kind := 0; kind < 6; kind++ {
+			for code := 0; code < 64; code++ {
+				p := []stmt{{K: "root"}}
+				cur := 0
+				nodes := []int{0}
+				fresh := 10
+				for pos := 0; pos < 3; pos++ {
+					switch kind {
+					case 1, 5:
+						p = append(p, stmt{K: "with", X: cur})
+						p = append(p, stmt{K: "op", X: len(p) - 1, Key: fmt.Sprintf("pos%d", pos), Val: "v"})
+						p = append(p, stmt{K: "logger", X: len(p) - 1})
+						cur = len(p) - 1
+						if kind == 5 {
+							p = append(p, stmt{K: "update", X: cur, KVs: []string{fmt.Sprintf("u%d", pos), "w"}})
+						}
+					case 2:
+						p = append(p, lcopy(cur, []int{wide, 1, wide}[pos]))
+						cur = len(p) - 1
+					case 3:
+						p = append(p, stmt{K: "output", X: cur})
+						cur = len(p) - 1
+					case 4:
+						p = append(p, stmt{K: "copy", X: cur, Via: 2})
+						cur = len(p) - 1
+					}
+					switch (code >> (2 * uint(pos))) & 3 {
+					case 1:
+						p = append(p, scopy(cur, 0))
+						cur = len(p) - 1
+					case 2:
+						fresh++
+						p = append(p, scopy(cur, fresh))
+						cur = len(p) - 1
+					case 3:
+						p = append(p, scopy(cur, 1))
+						cur = len(p) - 1
+					}
+					nodes = append(nodes, cur)
+					p = append(p, scopy(cur, 0))
+					nodes = append(nodes, len(p)-1)
+					p = append(p, scopy(cur, 1))
+					nodes = append(nodes, len(p)-1)
+				}
+				for _, x := range nodes {
+					p = append(p, stmt{K: "emit", X: x})
+				}
+				for i := len(nodes) - 1; i >= 0; i -= 2 {
+					p = append(p, stmt{K: "emit", X: nodes[i]})
+				}
+				emitCase(p, false)
+				nsweep++
+			}
+		}
+		c.Res.ExtraCoverage["sampler_path_sweep_programs"] = nsweep
+	}
+
 	for i := 0; i < n; i++ {
 		r := c.R.Fork()
 		switch i % 5 {
